@@ -211,7 +211,7 @@ def run(ck):
     ck.rule("C02-O8", "qRegisterMetaType<LogMessage> runs on every path of a constructor every logger goes through (OwnThreadHandler, SignalSink), not only when asynchronous mode is switched on")
     regs = []
     for f_ in F.fns.values():
-        if f_.body is None or "/src/qtlogger/" not in (f_.file or ""):
+        if f_.body is None or not in_lib(f_.file):
             continue
         for n_ in f_.calls():
             if "qRegisterMetaType" in (n_.get("callee") or "") and "LogMessage" in (n_.get("callee") or "") + (n_.get("sig") or "") + (n_.get("type") or "") + json_dumps_small(n_):
@@ -242,7 +242,7 @@ def run(ck):
     n_qi = 0
     for i_ in sorted(ids):
         f_ = F.fns.get(i_)
-        if f_ is None or f_.body is None or "/src/qtlogger/" not in (f_.file or ""):
+        if f_ is None or f_.body is None or not in_lib(f_.file):
             continue
         for q in f_.calls("qInstallMessageHandler"):
             n_qi += 1
@@ -257,7 +257,7 @@ def run(ck):
     # for as long as it likes (while another thread logs, those messages never enter the pipeline)
     allowed_ids = set(ids) | F.reachable_from([F.fn(LG + "::restorePreviousMessageHandler")], virtual=False)
     for f_ in sorted(F.fns.values(), key=lambda f: (f.file, f.line, f.sig)):
-        if f_.body is None or "/src/qtlogger/" not in (f_.file or "") or f_.id in allowed_ids:
+        if f_.body is None or not in_lib(f_.file) or f_.id in allowed_ids:
             continue
         for q in f_.calls("qInstallMessageHandler"):
             ck.ob("C02-O7", sitestr(f_, q), False, "%s changes Qt's message handler (%s) outside installMessageHandler()/restorePreviousMessageHandler(): until it puts the logger back, messages logged by "
